@@ -23,6 +23,9 @@ type laRun struct {
 	// PanicsAre: property to which kernel panics are attributed ("" = this property)
 	Explain string
 	e2eDone map[string][2]string
+	// E2EAlways: end-to-end scenario run on every check as a supplementary leg (real binary, concrete runs - not a
+	// solver verdict); a deviation is reported as a violation of its own
+	E2EAlways string
 	// KeepReplays: another leg of the same property already stored replay material that must survive
 	KeepReplays bool
 	// CaseBase: first case number used for replay directories
@@ -119,7 +122,13 @@ func (lr *laRun) finish(res *laResult, extra map[string]interface{}) int {
 	validated := 0
 	ci := lr.CaseBase
 	perKernel := map[string]interface{}{}
+	var notApplicable []string
 	for _, kr := range res.Results {
+		if kr.NotApplicable != "" {
+			notApplicable = append(notApplicable, kr.Kernel.Name+": "+kr.NotApplicable)
+			fmt.Printf("INCONCLUSIVE: kernel %s is not applicable to this tree: %s\n", kr.Kernel.Name, kr.NotApplicable)
+			continue
+		}
 		if kr.Stats != nil {
 			total.Add(kr.Stats)
 		}
@@ -278,6 +287,26 @@ func (lr *laRun) finish(res *laResult, extra map[string]interface{}) int {
 			samples = append(samples, map[string]interface{}{"kernel": kr.Kernel.Name, "harness": kr.Kernel.Harness, "package": kr.Kernel.Pkg, "assertions": ids})
 		}
 	}
+	// supplementary end-to-end leg: concrete runs of the binary built from the tree
+	e2eLeg := map[string]interface{}{}
+	if lr.E2EAlways != "" && opt.Only == "" {
+		dir := filepath.Join(replayBase, "e2e_leg")
+		os.MkdirAll(dir, 0o755)
+		_, alreadyRun := lr.e2eDone[lr.E2EAlways]
+		rep, detail := lr.e2e(lr.E2EAlways, filepath.Join(dir, "e2e"))
+		e2eLeg = map[string]interface{}{"scenario": lr.E2EAlways, "deviations": 0, "note": "real goverter binary built from the working tree, concrete runs on scratch modules (cmd/vcheck/e2e.go); supplementary, not a solver verdict"}
+		if rep {
+			e2eLeg["deviations"] = len(strings.Split(detail, "\n"))
+			os.WriteFile(filepath.Join(dir, "e2e.txt"), []byte(detail), 0o644)
+			if !(alreadyRun && violations > 0) {
+				// not yet reported as the confirmation of a kernel counterexample
+				violations++
+				fmt.Printf("VIOLATION property=%s replay=%s\n  end-to-end scenario %s (real binary): %s\n", prop, dir, lr.E2EAlways, strings.ReplaceAll(strings.TrimSpace(detail), "\n", " / "))
+			}
+		} else {
+			os.RemoveAll(dir)
+		}
+	}
 	var kh []string
 	for w := range knownHits {
 		kh = append(kh, w)
@@ -336,6 +365,12 @@ func (lr *laRun) finish(res *laResult, extra map[string]interface{}) int {
 	}
 	for k, v := range extra {
 		cov[k] = v
+	}
+	if len(e2eLeg) > 0 {
+		cov["end_to_end_leg"] = e2eLeg
+	}
+	if len(notApplicable) > 0 {
+		cov["kernels_not_applicable_to_this_tree"] = notApplicable
 	}
 	ev := &Evidence{PropertyID: prop, Tier: opt.Tier, Seed: opt.Seed, Level: "model_checking", Coverage: cov, Assumptions: lr.Assume, WallS: time.Since(startTime).Seconds(), Violations: violations}
 	writeEvidence(ev)
